@@ -1540,3 +1540,7 @@ mod tests {
         assert_eq!(deposit, &expected_deposit);
     }
 }
+
+#[cfg(all(test, feature = "verif"))]
+#[path = "/verif/harness/sequencer/ics20_mc.rs"]
+mod verif_ics20;
